@@ -24,6 +24,10 @@ CLAIMED["C04"] = dict(engine="E1", technique="symbolic execution of encode follo
     text="For every catalogue code and each layout (1-D, (2,k), (2,2,k), (2,b*k), (3k,)) one query covers all messages of that layout: round-trip identity, zero syndrome, output shapes scaled by n/k and k/n; rejection of non-multiples is a ground check per shape.",
     note="Shapes are concrete (bounded technique); Reed-Muller nearest-codeword inverse bounded to k <= 5/7; <= 400 coded bits per run.",
     ref="DESIGN.md §4 C04")
+CLAIMED["C02"] = dict(engine="E1", technique="symbolic execution of encoder + real decoder on r = enc(m) xor e with a cardinality constraint wt(e) <= t, forking per syndrome / per concretised bit; z3 decides decoded == m per path; ML clause: exists r, w with d(r, enc(w)) < d(r, enc(dec(r))) must be unsat",
+    text="Per (code, decoder) pair all messages x all error patterns of weight <= t are covered by one query per symbolic path (paths = syndromes for table decoders, 1 for exhaustive ML, feasible received words for Berlekamp-Massey whose front end concretises each bit). Complete decoders additionally get the minimum-distance clause over all 2^n received words and all 2^k competitors.",
+    note="t from error_correction_capability or floor((d_adv-1)/2). Bounds: n <= 16 (23 for Golay as stretch), ML k <= 7; Berlekamp-Massey: mu=3 all (m,e), mu=4 with fixed codewords (solver only prunes by weight there: weakest use of the technique). ReedMullerDecoder(hard) is a listed known finding.",
+    ref="DESIGN.md §4 C02")
 NOT_YET = {}
 
 PENDING_REASON = "check not built yet in this round (planned: see DESIGN.md §8); not claimed until its check exists"
